@@ -37,6 +37,17 @@ def handle_of(body, tracer, op, depth=0):
     Deref/DerefMut, Index/IndexMut calls and MIR index projections."""
     o = tracer.origin(op)
     for _ in range(12):
+        idxs = [e for e in o.get('p', []) if isinstance(e, dict) and 'idx' in e]
+        if idxs and o['o'] in ('call', 'rvalue'):
+            # `(*container)[i]` where the container value comes from a call (deref_mut of a Vec, a slice parameter of a helper)
+            idx = tracer.origin({'k': 'copy', 'l': idxs[0]['idx'], 'p': []})
+            cont = None
+            if o['o'] == 'call' and call_matches(o['term'], 'Deref>::deref', 'DerefMut>::deref_mut', '::as_slice', '::as_mut_slice',
+                                                 'Deref::deref', 'DerefMut::deref_mut') and o['term']['args']:
+                cont = container_root(body, tracer, o['term']['args'][0])
+            elif o.get('l') is not None:
+                cont = o['l']
+            return cont, idx
         if o['o'] == 'call':
             t = o['term']
             if call_matches(t, 'Option::<T>::expect', 'Option::<T>::unwrap', 'Option::<T>::unwrap_unchecked'):
